@@ -66,6 +66,55 @@ def _root_place(body, op, depth=0):
     return pl
 
 
+def _skip_position_sum(body, a, b):
+    """`start + offset` where offset = iter.skip(start).position(..)'s result: an element exists at start + offset,
+    so the sum is a valid index (< isize::MAX) whatever `start` is"""
+    for x, y in ((a, b), (b, a)):
+        if y.get('k') not in ('copy', 'move'):
+            continue
+        pl = y['place']
+        # follow copies to the position() call result payload
+        seen = 0
+        cur = pl
+        while seen < 6:
+            seen += 1
+            ds = _defs(body, cur['l'])
+            if len(ds) != 1:
+                break
+            k, d, blk = ds[0]
+            if k == 'assign' and d['k'] == 'use' and d['op'].get('k') in ('copy', 'move'):
+                cur = d['op']['place']
+                continue
+            if k == 'call':
+                c = callee(d)
+                p_ = (c.get('resolved') or c['path']) if c else ''
+                if p_.split('::')[-1] in ('position',) and d['args']:
+                    it = d['args'][0]
+                    # the iterator: (&mut) skip(iter, start)
+                    for _ in range(4):
+                        if it.get('k') not in ('copy', 'move'):
+                            break
+                        ids = _defs(body, it['place']['l'])
+                        if len(ids) != 1:
+                            break
+                        kk, dd, _b = ids[0]
+                        if kk == 'assign' and dd['k'] in ('ref',):
+                            it = {'k': 'copy', 'place': dd['place']}
+                            continue
+                        if kk == 'assign' and dd['k'] == 'use':
+                            it = dd['op']
+                            continue
+                        if kk == 'call':
+                            cc = callee(dd)
+                            pp = (cc.get('resolved') or cc['path']) if cc else ''
+                            if pp.split('::')[-1] == 'skip' and len(dd['args']) == 2:
+                                return _same_place(_root_place(body, dd['args'][1]), _root_place(body, x)) or (
+                                    dd['args'][1].get('k') in ('copy', 'move') and x.get('k') in ('copy', 'move') and dd['args'][1]['place'] == x['place'])
+                        break
+            break
+    return False
+
+
 class Prover:
     def __init__(self, body):
         self.body = body
@@ -223,7 +272,9 @@ class Prover:
                         r = None
                     else:
                         a, b = self.range_of(rv['a'], depth + 1), self.range_of(rv['b'], depth + 1)
-                        if a is not None and b is not None:
+                        if opn == 'Add' and _skip_position_sum(body, rv['a'], rv['b']):
+                            r = (0, SLICE_MAX - 1)
+                        elif a is not None and b is not None:
                             if opn == 'Add':
                                 r = (a[0] + b[0], a[1] + b[1])
                             elif opn == 'Sub':
@@ -335,6 +386,8 @@ def prove_site(body, block, term):
         if a is None or b is None:
             return None
         opn = rv['op'].replace('WithOverflow', '')
+        if opn == 'Add' and _skip_position_sum(body, rv['a'], rv['b']):
+            return 'start + offset with offset found by iter.skip(start).position(..): the sum indexes an existing element'
         if opn == 'Add' and a[1] + b[1] <= U[ty]:
             return '%s + %s cannot exceed %s::MAX (operands <= %d, %d)' % ('a', 'b', ty, a[1], b[1])
         if opn == 'Sub' and a[0] - b[1] >= 0:
